@@ -8,6 +8,7 @@ Require Import Base Overlap Suggestion LintJson Wasm ListLemmas OverlapProofs Su
 Require Import C16Ctx C16CtxProofs.
 Require JsonEscape Stats.
 Require Import C16Api C16ApiProofs Tables_wasmsurface C16Surface.
+Require C19Record C19RecordProofs C16Stats C16StatsProofs.
 From Coq Require Import List Sorting.Sorted Sorting.Permutation.
 
 (* lint, any state, any text: when the rules' lints lie inside the text (C03's business, monitored), the answer exists (no panic while slicing the problem text), every returned lint lies inside the text, is one of the rules' lints, carries exactly the characters at its span and the language of the call, and no two returned lints share a character (C13 lifted through the wrapper) *)
@@ -420,16 +421,12 @@ Print Assumptions C16_import_words_keeps_config.
 Theorem C16_api_coverage :
   wasm_exported_functions = map fst api_classification
   /\ map fst (filter (fun e => is_outside (snd e)) api_classification)
-     = ["setup"; "Linter::get_lint_descriptions_as_json"; "Linter::summarize_stats";
-        "Linter::get_lint_descriptions_as_object"; "Linter::get_lint_config_as_object";
-        "Linter::set_lint_config_from_object"; "get_default_lint_config"].
+     = ["setup"].
 Proof. exact api_coverage. Qed.
 Check C16_api_coverage :
   wasm_exported_functions = map fst api_classification
   /\ map fst (filter (fun e => is_outside (snd e)) api_classification)
-     = ["setup"; "Linter::get_lint_descriptions_as_json"; "Linter::summarize_stats";
-        "Linter::get_lint_descriptions_as_object"; "Linter::get_lint_config_as_object";
-        "Linter::set_lint_config_from_object"; "get_default_lint_config"].
+     = ["setup"].
 Print Assumptions C16_api_coverage.
 
 (* the exports modelled as compositions in Model/C16Api.v still have the bodies transcribed there (to_title_case = make_title_case_str with PlainEnglish and the curated dictionary; is_likely_english / isolate_english on self.dictionary; get_default_lint_config_as_json = the curated LintGroup's config; generate/import_stats_file = Stats::write / Stats::read + append) *)
@@ -440,7 +437,14 @@ Theorem C16_api_bodies :
   /\ wasm_body_get_default_lint_config_as_json = "let config = LintGroup::new_curated(MutableDictionary::new().into(), Dialect::American.into()).config; serde_json::to_string(&config).unwrap()"
   /\ wasm_body_generate_stats_file = "let mut output = Vec::new(); self.stats.write(&mut output).unwrap(); String::from_utf8(output).unwrap()"
   /\ wasm_body_import_stats_file = "let data = file.as_bytes(); let mut read = Cursor::new(data); let mut new_stats = Stats::read(&mut read).map_err(|err| err.to_string())?; self.stats.records.append(&mut new_stats.records); Ok(())"
-  /\ wasm_body_get_lint_config_as_json = "serde_json::to_string(&self.lint_group.config).unwrap()".
+  /\ wasm_body_get_lint_config_as_json = "serde_json::to_string(&self.lint_group.config).unwrap()"
+  /\ wasm_body_summarize_stats = "let mut operable_copy = self.stats.clone(); if let Some(start_time) = start_time { operable_copy.records.retain(|i| i.when > start_time); } if let Some(end_time) = end_time { operable_copy.records.retain(|i| i.when < end_time); } operable_copy .summarize() .serialize(&Serializer::json_compatible()) .unwrap()"
+  /\ wasm_body_get_lint_descriptions_as_json = "serde_json::to_string(&self.lint_group.all_descriptions()).unwrap()"
+  /\ wasm_body_get_lint_descriptions_as_object = "let serializer = Serializer::json_compatible(); self.lint_group .all_descriptions() .serialize(&serializer) .unwrap()"
+  /\ wasm_body_get_lint_config_as_object = "let serializer = Serializer::json_compatible(); self.lint_group.config.serialize(&serializer).unwrap()"
+  /\ wasm_body_set_lint_config_from_json = "let mut new_config = serde_json::from_str(&json).map_err(|v| v.to_string())?; self.lint_group.config.clear(); self.lint_group.config.merge_from(&mut new_config); Ok(())"
+  /\ wasm_body_set_lint_config_from_object = "let mut new_config = serde_wasm_bindgen::from_value(object).map_err(|v| v.to_string())?; self.lint_group.config.clear(); self.lint_group.config.merge_from(&mut new_config); Ok(())"
+  /\ wasm_body_get_default_lint_config = "let config = LintGroup::new_curated(MutableDictionary::new().into(), Dialect::American.into()).config; let serializer = Serializer::json_compatible(); config.serialize(&serializer).unwrap()".
 Proof. exact api_bodies. Qed.
 Check C16_api_bodies :
   wasm_body_to_title_case = "harper_core::make_title_case_str(&text, &PlainEnglish, &FstDictionary::curated())"
@@ -449,7 +453,14 @@ Check C16_api_bodies :
   /\ wasm_body_get_default_lint_config_as_json = "let config = LintGroup::new_curated(MutableDictionary::new().into(), Dialect::American.into()).config; serde_json::to_string(&config).unwrap()"
   /\ wasm_body_generate_stats_file = "let mut output = Vec::new(); self.stats.write(&mut output).unwrap(); String::from_utf8(output).unwrap()"
   /\ wasm_body_import_stats_file = "let data = file.as_bytes(); let mut read = Cursor::new(data); let mut new_stats = Stats::read(&mut read).map_err(|err| err.to_string())?; self.stats.records.append(&mut new_stats.records); Ok(())"
-  /\ wasm_body_get_lint_config_as_json = "serde_json::to_string(&self.lint_group.config).unwrap()".
+  /\ wasm_body_get_lint_config_as_json = "serde_json::to_string(&self.lint_group.config).unwrap()"
+  /\ wasm_body_summarize_stats = "let mut operable_copy = self.stats.clone(); if let Some(start_time) = start_time { operable_copy.records.retain(|i| i.when > start_time); } if let Some(end_time) = end_time { operable_copy.records.retain(|i| i.when < end_time); } operable_copy .summarize() .serialize(&Serializer::json_compatible()) .unwrap()"
+  /\ wasm_body_get_lint_descriptions_as_json = "serde_json::to_string(&self.lint_group.all_descriptions()).unwrap()"
+  /\ wasm_body_get_lint_descriptions_as_object = "let serializer = Serializer::json_compatible(); self.lint_group .all_descriptions() .serialize(&serializer) .unwrap()"
+  /\ wasm_body_get_lint_config_as_object = "let serializer = Serializer::json_compatible(); self.lint_group.config.serialize(&serializer).unwrap()"
+  /\ wasm_body_set_lint_config_from_json = "let mut new_config = serde_json::from_str(&json).map_err(|v| v.to_string())?; self.lint_group.config.clear(); self.lint_group.config.merge_from(&mut new_config); Ok(())"
+  /\ wasm_body_set_lint_config_from_object = "let mut new_config = serde_wasm_bindgen::from_value(object).map_err(|v| v.to_string())?; self.lint_group.config.clear(); self.lint_group.config.merge_from(&mut new_config); Ok(())"
+  /\ wasm_body_get_default_lint_config = "let config = LintGroup::new_curated(MutableDictionary::new().into(), Dialect::American.into()).config; let serializer = Serializer::json_compatible(); config.serialize(&serializer).unwrap()".
 Print Assumptions C16_api_bodies.
 
 (* frame: to_title_case, is_likely_english, isolate_english, get_default_lint_config_as_json, generate_stats_file leave the linter as it is; import_stats_file changes the statistics only; a call of Model/Wasm.v is that call *)
@@ -494,8 +505,8 @@ Check C16_api_histories :
   /\ export_words a = export_words b.
 Print Assumptions C16_api_histories.
 
-(* statistics file (C19's log round trip lifted through the wrapper; premise = the serde contract of a record on the records in the log, monitored by the harness): generate_stats_file of one linter is accepted by import_stats_file of any linter, appends exactly the first linter's records, changes nothing else, and a linter without records reproduces the file *)
-Theorem C16_stats_file_roundtrip :
+(* ABSTRACT FORM, kept: for ANY record type and serde with the contract below (C16_stats_file_roundtrip_any_serde further down discharges the contract for the real Record) — statistics file (C19's log round trip lifted through the wrapper): generate_stats_file of one linter is accepted by import_stats_file of any linter, appends exactly the first linter's records, changes nothing else, and a linter without records reproduces the file *)
+Theorem C16_stats_file_roundtrip_any_serde :
   forall (curated : config) (word_id : text -> N) (raw_lints : text -> language -> config -> dict -> nat -> list rlint) (ctx : rlint -> text -> language -> dict -> N)
          (title_case : text -> text) (likely_english : text -> dict -> bool) (isolate : text -> dict -> text) (ser : stat_record -> JsonEscape.bytes) (de : JsonEscape.bytes -> option stat_record) (valid : stat_record -> Prop),
   (forall r, valid r -> de (ser r) = Some r) -> (forall r, valid r -> Stats.line_ok (ser r)) ->
@@ -506,7 +517,7 @@ Theorem C16_stats_file_roundtrip :
     /\ (s_stats st' = [] ->
         snd (xstep curated word_id raw_lints ctx title_case likely_english isolate ser de (set_stats st' (s_stats st' ++ s_stats st)) XGenerateStats) = XFile f).
 Proof. exact stats_file_roundtrip. Qed.
-Check C16_stats_file_roundtrip :
+Check C16_stats_file_roundtrip_any_serde :
   forall (curated : config) (word_id : text -> N) (raw_lints : text -> language -> config -> dict -> nat -> list rlint) (ctx : rlint -> text -> language -> dict -> N)
          (title_case : text -> text) (likely_english : text -> dict -> bool) (isolate : text -> dict -> text) (ser : stat_record -> JsonEscape.bytes) (de : JsonEscape.bytes -> option stat_record) (valid : stat_record -> Prop),
   (forall r, valid r -> de (ser r) = Some r) -> (forall r, valid r -> Stats.line_ok (ser r)) ->
@@ -516,7 +527,195 @@ Check C16_stats_file_roundtrip :
     /\ same_but_stats (set_stats st' (s_stats st' ++ s_stats st)) st'
     /\ (s_stats st' = [] ->
         snd (xstep curated word_id raw_lints ctx title_case likely_english isolate ser de (set_stats st' (s_stats st' ++ s_stats st)) XGenerateStats) = XFile f).
+Print Assumptions C16_stats_file_roundtrip_any_serde.
+
+(* statistics file over the CONCRETE harper_stats::Record (C19's Model/C19Record.v: every struct, enum and serde attribute of Record as serde_json writes and reads it) — the serde contract of a record is no premise any more, C19_record_value_roundtrip discharges it.  What is left: C19's float_rt (serde_json prints a finite f64 as a non-empty number text and reads it back) and that the records are values of the Rust types whose Numbers are finite (`good`).  Then, for any clock and uuids: generate_stats_file of one linter is accepted by import_stats_file of ANY linter, which appends exactly those records in order and changes nothing else; the importing linter then writes its own file followed by the imported one, and a linter without records writes the same file *)
+Theorem C16_stats_file_roundtrip :
+  forall (F : Type) (finite : F -> Prop) (print_f64 : F -> JsonEscape.bytes) (parse_f64 : JsonEscape.bytes -> option F)
+         (curated : config) (word_id : text -> N) (raw_lints : text -> language -> config -> dict -> nat -> list rlint) (ctx : rlint -> text -> language -> dict -> N)
+         (title_case : text -> text) (likely_english : text -> dict -> bool) (isolate : text -> dict -> text) (descriptions : list (N * text))
+         (fat_context : text -> language -> dict -> span -> list (C19Record.fattoken F)),
+  C19RecordProofs.float_rt F finite print_f64 parse_f64 ->
+  forall env st log, Forall (C19RecordProofs.good F finite print_f64 parse_f64) log ->
+  exists f, C16Stats.cstep F finite print_f64 parse_f64 curated word_id raw_lints ctx title_case likely_english isolate descriptions fat_context env (st, log) (C16Stats.YX XGenerateStats) = ((st, log), C16Stats.YFileOut f)
+    /\ forall env' st' log',
+         C16Stats.cstep F finite print_f64 parse_f64 curated word_id raw_lints ctx title_case likely_english isolate descriptions fat_context env' (st', log') (C16Stats.YX (XImportStats f)) = ((st', log' ++ log), C16Stats.YOut (XOut OUnit))
+         /\ (exists f', C16Stats.cstep F finite print_f64 parse_f64 curated word_id raw_lints ctx title_case likely_english isolate descriptions fat_context env' (st', log') (C16Stats.YX XGenerateStats) = ((st', log'), C16Stats.YFileOut f')
+                        /\ snd (C16Stats.cstep F finite print_f64 parse_f64 curated word_id raw_lints ctx title_case likely_english isolate descriptions fat_context env' (st', log' ++ log) (C16Stats.YX XGenerateStats)) = C16Stats.YFileOut (f' ++ f))
+         /\ (log' = [] -> snd (C16Stats.cstep F finite print_f64 parse_f64 curated word_id raw_lints ctx title_case likely_english isolate descriptions fat_context env' (st', log' ++ log) (C16Stats.YX XGenerateStats)) = C16Stats.YFileOut f).
+Proof. exact C16StatsProofs.stats_file_roundtrip_concrete. Qed.
+Check C16_stats_file_roundtrip :
+  forall (F : Type) (finite : F -> Prop) (print_f64 : F -> JsonEscape.bytes) (parse_f64 : JsonEscape.bytes -> option F)
+         (curated : config) (word_id : text -> N) (raw_lints : text -> language -> config -> dict -> nat -> list rlint) (ctx : rlint -> text -> language -> dict -> N)
+         (title_case : text -> text) (likely_english : text -> dict -> bool) (isolate : text -> dict -> text) (descriptions : list (N * text))
+         (fat_context : text -> language -> dict -> span -> list (C19Record.fattoken F)),
+  C19RecordProofs.float_rt F finite print_f64 parse_f64 ->
+  forall env st log, Forall (C19RecordProofs.good F finite print_f64 parse_f64) log ->
+  exists f, C16Stats.cstep F finite print_f64 parse_f64 curated word_id raw_lints ctx title_case likely_english isolate descriptions fat_context env (st, log) (C16Stats.YX XGenerateStats) = ((st, log), C16Stats.YFileOut f)
+    /\ forall env' st' log',
+         C16Stats.cstep F finite print_f64 parse_f64 curated word_id raw_lints ctx title_case likely_english isolate descriptions fat_context env' (st', log') (C16Stats.YX (XImportStats f)) = ((st', log' ++ log), C16Stats.YOut (XOut OUnit))
+         /\ (exists f', C16Stats.cstep F finite print_f64 parse_f64 curated word_id raw_lints ctx title_case likely_english isolate descriptions fat_context env' (st', log') (C16Stats.YX XGenerateStats) = ((st', log'), C16Stats.YFileOut f')
+                        /\ snd (C16Stats.cstep F finite print_f64 parse_f64 curated word_id raw_lints ctx title_case likely_english isolate descriptions fat_context env' (st', log' ++ log) (C16Stats.YX XGenerateStats)) = C16Stats.YFileOut (f' ++ f))
+         /\ (log' = [] -> snd (C16Stats.cstep F finite print_f64 parse_f64 curated word_id raw_lints ctx title_case likely_english isolate descriptions fat_context env' (st', log' ++ log) (C16Stats.YX XGenerateStats)) = C16Stats.YFileOut f).
 Print Assumptions C16_stats_file_roundtrip.
+
+(* the premise `good` of C16_stats_file_roundtrip is an invariant of histories: if every apply_suggestion pushes a good record (C16_stats_apply_record_good: tokens that are Rust values with finite Numbers, an i64 clock, a hyphenated uuid) and every file import_stats_file accepts holds good records (call_good; C16_stats_own_file_good: a file generated from good records does), the records of the linter stay good *)
+Theorem C16_stats_records_stay_good :
+  forall (F : Type) (finite : F -> Prop) (print_f64 : F -> JsonEscape.bytes) (parse_f64 : JsonEscape.bytes -> option F)
+         (curated : config) (word_id : text -> N) (raw_lints : text -> language -> config -> dict -> nat -> list rlint) (ctx : rlint -> text -> language -> dict -> N)
+         (title_case : text -> text) (likely_english : text -> dict -> bool) (isolate : text -> dict -> text) (descriptions : list (N * text))
+         (fat_context : text -> language -> dict -> span -> list (C19Record.fattoken F)),
+  forall h cs, Forall (C19RecordProofs.good F finite print_f64 parse_f64) (snd cs) ->
+  C16StatsProofs.hist_good F finite print_f64 parse_f64 curated word_id raw_lints ctx title_case likely_english isolate descriptions fat_context cs h ->
+  Forall (C19RecordProofs.good F finite print_f64 parse_f64) (snd (fst (C16Stats.crun F finite print_f64 parse_f64 curated word_id raw_lints ctx title_case likely_english isolate descriptions fat_context cs h))).
+Proof. exact C16StatsProofs.crun_log_good. Qed.
+Check C16_stats_records_stay_good :
+  forall (F : Type) (finite : F -> Prop) (print_f64 : F -> JsonEscape.bytes) (parse_f64 : JsonEscape.bytes -> option F)
+         (curated : config) (word_id : text -> N) (raw_lints : text -> language -> config -> dict -> nat -> list rlint) (ctx : rlint -> text -> language -> dict -> N)
+         (title_case : text -> text) (likely_english : text -> dict -> bool) (isolate : text -> dict -> text) (descriptions : list (N * text))
+         (fat_context : text -> language -> dict -> span -> list (C19Record.fattoken F)),
+  forall h cs, Forall (C19RecordProofs.good F finite print_f64 parse_f64) (snd cs) ->
+  C16StatsProofs.hist_good F finite print_f64 parse_f64 curated word_id raw_lints ctx title_case likely_english isolate descriptions fat_context cs h ->
+  Forall (C19RecordProofs.good F finite print_f64 parse_f64) (snd (fst (C16Stats.crun F finite print_f64 parse_f64 curated word_id raw_lints ctx title_case likely_english isolate descriptions fat_context cs h))).
+Print Assumptions C16_stats_records_stay_good.
+
+(* a statistics file generated from good records is a file whose import is `call_good` *)
+Theorem C16_stats_own_file_good :
+  forall (F : Type) (finite : F -> Prop) (print_f64 : F -> JsonEscape.bytes) (parse_f64 : JsonEscape.bytes -> option F)
+         (curated : config) (fat_context : text -> language -> dict -> span -> list (C19Record.fattoken F)),
+  C19RecordProofs.float_rt F finite print_f64 parse_f64 ->
+  forall rs0, Forall (C19RecordProofs.good F finite print_f64 parse_f64) rs0 ->
+  C16StatsProofs.call_good F finite print_f64 parse_f64 fat_context (Z0, []) (new curated 0)
+    (C16Stats.YX (XImportStats (Stats.write (C19Record.record F) (C19Record.ser_record F finite print_f64 parse_f64) rs0))).
+Proof. exact C16StatsProofs.own_file_good. Qed.
+Check C16_stats_own_file_good :
+  forall (F : Type) (finite : F -> Prop) (print_f64 : F -> JsonEscape.bytes) (parse_f64 : JsonEscape.bytes -> option F)
+         (curated : config) (fat_context : text -> language -> dict -> span -> list (C19Record.fattoken F)),
+  C19RecordProofs.float_rt F finite print_f64 parse_f64 ->
+  forall rs0, Forall (C19RecordProofs.good F finite print_f64 parse_f64) rs0 ->
+  C16StatsProofs.call_good F finite print_f64 parse_f64 fat_context (Z0, []) (new curated 0)
+    (C16Stats.YX (XImportStats (Stats.write (C19Record.record F) (C19Record.ser_record F finite print_f64 parse_f64) rs0))).
+Print Assumptions C16_stats_own_file_good.
+
+(* the record apply_suggestion pushes — kind = the lint's kind (in range of C19Record's name table by C16_stats_kind_table), context = the fat tokens, the clock and the uuid of the call — is good when the tokens are Rust values with finite Numbers, the clock an i64 and the uuid hyphenated lower-case hex *)
+Theorem C16_stats_apply_record_good :
+  forall (F : Type) (finite : F -> Prop) (print_f64 : F -> JsonEscape.bytes) (parse_f64 : JsonEscape.bytes -> option F)
+         (fat_context : text -> language -> dict -> span -> list (C19Record.fattoken F)) t l d env,
+  Forall (C19RecordProofs.fattoken_wf F (fun _ => True) print_f64 parse_f64) (fat_context t (wlang l) d (rspan (winner l))) ->
+  Forall finite (flat_map (C19Record.tk_numbers F) (fat_context t (wlang l) d (rspan (winner l)))) ->
+  C19Record.i64_okb (fst env) = true -> Forall JsonEscape.scalar (snd env) -> C19Record.uuid_textb (snd env) = true ->
+  C19RecordProofs.good F finite print_f64 parse_f64 (C16Stats.record_now F fat_context t l d env).
+Proof. exact C16StatsProofs.record_now_good. Qed.
+Check C16_stats_apply_record_good :
+  forall (F : Type) (finite : F -> Prop) (print_f64 : F -> JsonEscape.bytes) (parse_f64 : JsonEscape.bytes -> option F)
+         (fat_context : text -> language -> dict -> span -> list (C19Record.fattoken F)) t l d env,
+  Forall (C19RecordProofs.fattoken_wf F (fun _ => True) print_f64 parse_f64) (fat_context t (wlang l) d (rspan (winner l))) ->
+  Forall finite (flat_map (C19Record.tk_numbers F) (fat_context t (wlang l) d (rspan (winner l)))) ->
+  C19Record.i64_okb (fst env) = true -> Forall JsonEscape.scalar (snd env) -> C19Record.uuid_textb (snd env) = true ->
+  C19RecordProofs.good F finite print_f64 parse_f64 (C16Stats.record_now F fat_context t l d env).
+Print Assumptions C16_stats_apply_record_good.
+
+(* histories over EVERY export of harper-wasm that touches a linter (Model/C16Stats.v: the calls of Model/C16Api.v + summarize_stats, the rule descriptions, the four JsValue functions; any clock, any uuids): the linter ends as after the history of its Model/Wasm.v calls alone, but for the statistics — it lints every text alike and exports the same words.  So every theorem about `run` covers such histories *)
+Theorem C16_whole_api_histories :
+  forall (F : Type) (finite : F -> Prop) (print_f64 : F -> JsonEscape.bytes) (parse_f64 : JsonEscape.bytes -> option F)
+         (curated : config) (word_id : text -> N) (raw_lints : text -> language -> config -> dict -> nat -> list rlint) (ctx : rlint -> text -> language -> dict -> N)
+         (title_case : text -> text) (likely_english : text -> dict -> bool) (isolate : text -> dict -> text) (descriptions : list (N * text))
+         (fat_context : text -> language -> dict -> span -> list (C19Record.fattoken F)) h st log,
+  let a := fst (fst (C16Stats.crun F finite print_f64 parse_f64 curated word_id raw_lints ctx title_case likely_english isolate descriptions fat_context (st, log) h)) in
+  let b := fst (run curated word_id raw_lints ctx st (base_calls (C16Stats.yproj_calls h))) in
+  same_but_stats a b /\ (forall t lang, api_lint curated raw_lints ctx a t lang = api_lint curated raw_lints ctx b t lang)
+  /\ export_words a = export_words b.
+Proof. exact C16StatsProofs.crun_lints_as_run. Qed.
+Check C16_whole_api_histories :
+  forall (F : Type) (finite : F -> Prop) (print_f64 : F -> JsonEscape.bytes) (parse_f64 : JsonEscape.bytes -> option F)
+         (curated : config) (word_id : text -> N) (raw_lints : text -> language -> config -> dict -> nat -> list rlint) (ctx : rlint -> text -> language -> dict -> N)
+         (title_case : text -> text) (likely_english : text -> dict -> bool) (isolate : text -> dict -> text) (descriptions : list (N * text))
+         (fat_context : text -> language -> dict -> span -> list (C19Record.fattoken F)) h st log,
+  let a := fst (fst (C16Stats.crun F finite print_f64 parse_f64 curated word_id raw_lints ctx title_case likely_english isolate descriptions fat_context (st, log) h)) in
+  let b := fst (run curated word_id raw_lints ctx st (base_calls (C16Stats.yproj_calls h))) in
+  same_but_stats a b /\ (forall t lang, api_lint curated raw_lints ctx a t lang = api_lint curated raw_lints ctx b t lang)
+  /\ export_words a = export_words b.
+Print Assumptions C16_whole_api_histories.
+
+(* the exports that take or return a JsValue (not executable outside a JavaScript host) do to the linter and answer what their twin does: get_lint_descriptions_as_object / _as_json, get_lint_config_as_object / _as_json, set_lint_config_from_object / _from_json, get_default_lint_config / _as_json (bodies pinned by C16_api_bodies: same value or same steps, another serialiser) *)
+Theorem C16_api_twins :
+  forall (F : Type) (finite : F -> Prop) (print_f64 : F -> JsonEscape.bytes) (parse_f64 : JsonEscape.bytes -> option F)
+         (curated : config) (word_id : text -> N) (raw_lints : text -> language -> config -> dict -> nat -> list rlint) (ctx : rlint -> text -> language -> dict -> N)
+         (title_case : text -> text) (likely_english : text -> dict -> bool) (isolate : text -> dict -> text) (descriptions : list (N * text))
+         (fat_context : text -> language -> dict -> span -> list (C19Record.fattoken F)) env cs c c',
+  C16Stats.twin c = Some c' -> C16Stats.cstep F finite print_f64 parse_f64 curated word_id raw_lints ctx title_case likely_english isolate descriptions fat_context env cs c = C16Stats.cstep F finite print_f64 parse_f64 curated word_id raw_lints ctx title_case likely_english isolate descriptions fat_context env cs c'.
+Proof. exact C16StatsProofs.cstep_twin. Qed.
+Check C16_api_twins :
+  forall (F : Type) (finite : F -> Prop) (print_f64 : F -> JsonEscape.bytes) (parse_f64 : JsonEscape.bytes -> option F)
+         (curated : config) (word_id : text -> N) (raw_lints : text -> language -> config -> dict -> nat -> list rlint) (ctx : rlint -> text -> language -> dict -> N)
+         (title_case : text -> text) (likely_english : text -> dict -> bool) (isolate : text -> dict -> text) (descriptions : list (N * text))
+         (fat_context : text -> language -> dict -> span -> list (C19Record.fattoken F)) env cs c c',
+  C16Stats.twin c = Some c' -> C16Stats.cstep F finite print_f64 parse_f64 curated word_id raw_lints ctx title_case likely_english isolate descriptions fat_context env cs c = C16Stats.cstep F finite print_f64 parse_f64 curated word_id raw_lints ctx title_case likely_english isolate descriptions fat_context env cs c'.
+Print Assumptions C16_api_twins.
+
+(* summarize_stats, the rule descriptions (both forms), get_lint_config_as_object, get_default_lint_config and generate_stats_file change neither the linter nor its records *)
+Theorem C16_api_readonly :
+  forall (F : Type) (finite : F -> Prop) (print_f64 : F -> JsonEscape.bytes) (parse_f64 : JsonEscape.bytes -> option F)
+         (curated : config) (word_id : text -> N) (raw_lints : text -> language -> config -> dict -> nat -> list rlint) (ctx : rlint -> text -> language -> dict -> N)
+         (title_case : text -> text) (likely_english : text -> dict -> bool) (isolate : text -> dict -> text) (descriptions : list (N * text))
+         (fat_context : text -> language -> dict -> span -> list (C19Record.fattoken F)) env cs c,
+  match c with
+  | C16Stats.YSummarize _ _ | C16Stats.YGetDescriptions | C16Stats.YGetDescriptionsObject | C16Stats.YGetConfigObject
+  | C16Stats.YGetDefaultConfigObject | C16Stats.YX XGenerateStats => fst (C16Stats.cstep F finite print_f64 parse_f64 curated word_id raw_lints ctx title_case likely_english isolate descriptions fat_context env cs c) = cs
+  | _ => True
+  end.
+Proof. exact C16StatsProofs.cstep_frame. Qed.
+Check C16_api_readonly :
+  forall (F : Type) (finite : F -> Prop) (print_f64 : F -> JsonEscape.bytes) (parse_f64 : JsonEscape.bytes -> option F)
+         (curated : config) (word_id : text -> N) (raw_lints : text -> language -> config -> dict -> nat -> list rlint) (ctx : rlint -> text -> language -> dict -> N)
+         (title_case : text -> text) (likely_english : text -> dict -> bool) (isolate : text -> dict -> text) (descriptions : list (N * text))
+         (fat_context : text -> language -> dict -> span -> list (C19Record.fattoken F)) env cs c,
+  match c with
+  | C16Stats.YSummarize _ _ | C16Stats.YGetDescriptions | C16Stats.YGetDescriptionsObject | C16Stats.YGetConfigObject
+  | C16Stats.YGetDefaultConfigObject | C16Stats.YX XGenerateStats => fst (C16Stats.cstep F finite print_f64 parse_f64 curated word_id raw_lints ctx title_case likely_english isolate descriptions fat_context env cs c) = cs
+  | _ => True
+  end.
+Print Assumptions C16_api_readonly.
+
+(* summarize_stats(start, end): the two retain passes keep exactly the records with start < when < end (strictly; a missing bound does not bound), in order; the Summary (the value then handed to serde_wasm_bindgen) counts each kept Lint record once under its kind, total_applied is their number (C19's summary_counts); without bounds it is the summary of all records; linter and records unchanged *)
+Theorem C16_summarize_stats :
+  forall (F : Type) (finite : F -> Prop) (print_f64 : F -> JsonEscape.bytes) (parse_f64 : JsonEscape.bytes -> option F)
+         (curated : config) (word_id : text -> N) (raw_lints : text -> language -> config -> dict -> nat -> list rlint) (ctx : rlint -> text -> language -> dict -> N)
+         (title_case : text -> text) (likely_english : text -> dict -> bool) (isolate : text -> dict -> text) (descriptions : list (N * text))
+         (fat_context : text -> language -> dict -> span -> list (C19Record.fattoken F)) env st log a b,
+  exists s, C16Stats.cstep F finite print_f64 parse_f64 curated word_id raw_lints ctx title_case likely_english isolate descriptions fat_context env (st, log) (C16Stats.YSummarize a b) = ((st, log), C16Stats.YSummary s)
+    /\ s = C16Stats.summary_of_records F (filter (C16StatsProofs.in_window F a b) log)
+    /\ (forall k, Stats.get_count nat Nat.eqb C19Record.config s k
+                  = count_occ Nat.eq_dec (C19RecordProofs.lint_kinds F (filter (C16StatsProofs.in_window F a b) log)) k)
+    /\ Stats.total_applied _ _ s = List.length (C19RecordProofs.lint_kinds F (filter (C16StatsProofs.in_window F a b) log))
+    /\ (a = None -> b = None -> s = C16Stats.summary_of_records F log).
+Proof. exact C16StatsProofs.summarize_stats_window. Qed.
+Check C16_summarize_stats :
+  forall (F : Type) (finite : F -> Prop) (print_f64 : F -> JsonEscape.bytes) (parse_f64 : JsonEscape.bytes -> option F)
+         (curated : config) (word_id : text -> N) (raw_lints : text -> language -> config -> dict -> nat -> list rlint) (ctx : rlint -> text -> language -> dict -> N)
+         (title_case : text -> text) (likely_english : text -> dict -> bool) (isolate : text -> dict -> text) (descriptions : list (N * text))
+         (fat_context : text -> language -> dict -> span -> list (C19Record.fattoken F)) env st log a b,
+  exists s, C16Stats.cstep F finite print_f64 parse_f64 curated word_id raw_lints ctx title_case likely_english isolate descriptions fat_context env (st, log) (C16Stats.YSummarize a b) = ((st, log), C16Stats.YSummary s)
+    /\ s = C16Stats.summary_of_records F (filter (C16StatsProofs.in_window F a b) log)
+    /\ (forall k, Stats.get_count nat Nat.eqb C19Record.config s k
+                  = count_occ Nat.eq_dec (C19RecordProofs.lint_kinds F (filter (C16StatsProofs.in_window F a b) log)) k)
+    /\ Stats.total_applied _ _ s = List.length (C19RecordProofs.lint_kinds F (filter (C16StatsProofs.in_window F a b) log))
+    /\ (a = None -> b = None -> s = C16Stats.summary_of_records F log).
+Print Assumptions C16_summarize_stats.
+
+(* C19Record's table of LintKind names (the index is the `kind` of a Lint record) is C16's: every kind has an index in range whose name is the name print_wlint writes; the table is the GENERATED enum of harper-core's LintKind, in order *)
+Theorem C16_stats_kind_table :
+  (forall k, (C16Stats.kind_idx k < List.length C19Record.lintkind_names)%nat
+              /\ nth (C16Stats.kind_idx k) C19Record.lintkind_names [] = C19Record.jb (kind_name k))
+  /\ map C19Record.jb lint_kind_enum = C19Record.lintkind_names
+  /\ map C16Stats.kind_idx all_kinds = seq 0 (List.length C19Record.lintkind_names).
+Proof. exact C16StatsProofs.kind_table. Qed.
+Check C16_stats_kind_table :
+  (forall k, (C16Stats.kind_idx k < List.length C19Record.lintkind_names)%nat
+              /\ nth (C16Stats.kind_idx k) C19Record.lintkind_names [] = C19Record.jb (kind_name k))
+  /\ map C19Record.jb lint_kind_enum = C19Record.lintkind_names
+  /\ map C16Stats.kind_idx all_kinds = seq 0 (List.length C19Record.lintkind_names).
+Print Assumptions C16_stats_kind_table.
 
 (* get_default_lint_config_as_json is the curated configuration; set_lint_config_from_json of it (on a linter whose configuration map is sorted — a BTreeMap), and Linter::new by itself, make the rules see exactly the curated choices during lint *)
 Theorem C16_default_config :
@@ -724,6 +923,43 @@ Example C16_api_nonvacuous :
   | _ => False
   end.
 Proof. vm_compute. repeat split. Qed.
+
+(* the statistics over the concrete Record on a concrete history: a linter that already holds C19's example record
+   (clock -1; a misspelt word with LF, quote, backslash and an astral character, a Number, a quote, a currency sign, a
+   word with metadata) applies two suggestions at clock 5 and 7; summarize_stats(5, None) keeps only the record of
+   clock 7 (strictly later), the unbounded summary counts all three; the file it generates is imported by a new linter,
+   which then generates the same file; the JsValue twin of get_lint_config answers like get_lint_config_as_json;
+   float_rt and `good` are satisfiable (C19's instance: a float is the text serde_json printed for it) *)
+Example C16_stats_nonvacuous :
+  C19RecordProofs.float_rt JsonEscape.bytes C19RecordProofs.txt_finite (fun t => t) (fun t => Some t)
+  /\ Forall (C19RecordProofs.good JsonEscape.bytes C19RecordProofs.txt_finite (fun t => t) (fun t => Some t)) [C19RecordProofs.ex_lint]
+  /\ let l := mkwl (mkrl (mkspan 0 4) Repetition [ReplaceWith [97%N]] [34%N; 10%N] 63) [97; 98; 99; 100]%N Plain in
+     let fat := fun (_ : text) (_ : language) (_ : dict) (_ : span) => [([116; 101; 104]%N, C19Record.TKWord JsonEscape.bytes None)] in
+     let Y := C16Stats.crun JsonEscape.bytes C19RecordProofs.txt_finite (fun t => t) (fun t => Some t) [] toy_word_id ex_raw ex_ctx
+                (fun t => t) (fun _ _ => true) (fun t _ => t) [(0%N, [100%N])] fat in
+     let u := C19Record.jb "00000000-0000-4000-8000-000000000001" in
+     let '(cs, os) := Y (new [] 0, [C19RecordProofs.ex_lint])
+        [((C16StatsProofs.zn 5, u), C16Stats.YX (XBase (CApply ex_text l (ReplaceWith [97%N]))));
+         ((C16StatsProofs.zn 7, u), C16Stats.YX (XBase (CApply ex_text l (ReplaceWith [97%N]))));
+         ((C16StatsProofs.zn 9, u), C16Stats.YSummarize (Some (C16StatsProofs.zn 5)) None);
+         ((C16StatsProofs.zn 9, u), C16Stats.YSummarize None None);
+         ((C16StatsProofs.zn 9, u), C16Stats.YX XGenerateStats);
+         ((C16StatsProofs.zn 9, u), C16Stats.YGetConfigObject);
+         ((C16StatsProofs.zn 9, u), C16Stats.YGetDescriptionsObject)] in
+     match os with
+     | [_; _; C16Stats.YSummary s1; C16Stats.YSummary s2; C16Stats.YFileOut f; C16Stats.YOut (XOut (OConfig [])); C16Stats.YDescriptions [(0%N, [100%N])]] =>
+         Stats.total_applied _ _ s1 = 1%nat /\ Stats.total_applied _ _ s2 = 3%nat
+         /\ Stats.get_count nat Nat.eqb C19Record.config s2 4%nat = 2%nat
+         /\ Stats.lookup (Stats.text_eqb) [116; 101; 104]%N (Stats.misspelled _ _ s2) = 2%nat
+         /\ List.length (snd cs) = 3%nat
+         /\ snd (Y (new [] 1, []) [((C16StatsProofs.zn 0, []), C16Stats.YX (XImportStats f)); ((C16StatsProofs.zn 0, []), C16Stats.YX XGenerateStats)])
+            = [C16Stats.YOut (XOut OUnit); C16Stats.YFileOut f]
+     | _ => False
+     end.
+Proof.
+  split; [exact C19RecordProofs.txt_float_rt|]. split; [constructor; [exact (proj1 C19RecordProofs.ex_good)|constructor]|].
+  vm_compute. repeat split.
+Qed.
 
 (* HISTORY — the OLD import_words (synchronise only when the word count grew; before fix ba0a239, finding
    C16-F15) refuted the words round trip: regression witness over Wasm.import_words_old, which is no longer
